@@ -125,6 +125,24 @@ theorem exMin_direct_hyps : Start.NoSubTol (1/100000 : ℚ) ((stdK exMinStd).row
   simp at hx; subst hx
   right; rw [h1]; norm_num
 
+/-- what `into_tableau` (tolerance `1e-5`) really returns for `exMin`: `x` itself is the first independent column of
+the only row, so the start is already the optimal tableau `exT'`. -/
+theorem exMin_intoTableau : intoTableau (1/100000 : ℚ) 1 10 (stdK exMinStd) = .ok exT' := by
+  have hr : (stdK exMinStd).rows.map (·.coeffs) = [[1, 1]] := by simp [stdK, exMinStd, toK]
+  have hn : (stdK exMinStd).vars.length = 2 := rfl
+  have hm : (stdK exMinStd).rows.length = 1 := rfl
+  unfold intoTableau
+  simp only [hr, hn, hm, Props.C14.sm0_independent]
+  simp [selectPerRow, List.range, List.range.loop, canonicalise, rowDiv, rowSubMul, stdK, exMinStd, toK, nth, row,
+    Props.C14.T0', List.modify]
+
+theorem exT'_solve : (solve (0:ℚ) 1 10 [] exT').result = .ok () ∧ (solve (0:ℚ) 1 10 [] exT').final = exT' := by
+  have h1 : decide (0 > (Props.C14.T0'.c.length + Props.C14.T0'.a.length + 1)) = false := by decide
+  simp only [solve, solveLoop, h1, exT'_step, and_self]
+
+theorem exMin_startFacts : StartFacts (1/100000 : ℚ) 1 10 (stdK exMinStd) :=
+  Or.inl ⟨exMin_direct_hyps.2, exMin_direct_hyps.1⟩
+
 /-! ### `min −x s.t. −x ≤ 2, x ≥ 0` — unbounded -/
 
 def exUnb : LinModel (Ext ℚ) :=
@@ -244,5 +262,42 @@ theorem exInf_wf : WF exInf := by
   · simp [exInf, isContinuous]
   · simp [exInf]
   · simp [exInf, isFin]
+
+/-! ### the same with the free variable CALLED `$sl_y` (an internal prefix): harmless, it only occurs as `$p$sl_y`, `$m$sl_y` -/
+
+def exFreeSl : LinModel (Ext ℚ) :=
+  { optType := .min, objective := [.fin 1], offset := .fin 0, vars := ["$sl_y"],
+    domain := [{ name := "$sl_y", ty := .real .ninf .pinf, usage := 1 }],
+    rows := [{ name := "", coeffs := [.fin 1], cmp := .ge, rhs := .fin (-3) }] }
+
+def exFreeSlStd : StdModel (Ext ℚ) :=
+  { vars := ["$p$sl_y", "$m$sl_y", "$su_1"], objective := [.fin 1, .fin (-1), .fin 0], offset := .fin 0, flip := false,
+    rows := [{ coeffs := [.fin (-1), .fin 1, .fin 1], rhs := .fin 3 }] }
+
+theorem exFreeSl_std : standardize exFreeSl = .ok exFreeSlStd := by rw [fieldExact_rat]; decide +kernel
+
+theorem exFreeSl_wf : WF exFreeSl := by
+  refine ⟨rfl, ?_, ?_, ?_, ?_, ?_, ?_, ?_, ?_, ?_, Or.inl rfl⟩
+  · simp [exFreeSl, isFin]
+  · simp [exFreeSl, isFin]
+  · simp [exFreeSl]
+  · simp [exFreeSl, isFin]
+  · simp [exFreeSl]
+  · simp [exFreeSl, lookup]
+  · simp [exFreeSl, isContinuous]
+  · simp [exFreeSl, isFin]
+  · simp [exFreeSl]
+
+theorem exFreeSl_point : StdFeasible exFreeSlStd [0, 3, 0] := by
+  refine ⟨rfl, by simp, ?_⟩
+  intro r hr
+  simp only [exFreeSlStd, List.mem_singleton] at hr
+  subst hr
+  simp [rowVal, toK]
+
+theorem exFreeSl_flags : flags exFreeSl = [true] := by simp [flags, tys, tyOf, lookup, exFreeSl, isFree]
+
+theorem exFreeSl_preimage : preimage exFreeSl [0, 3, 0] = [-3] := by
+  simp [preimage, exFreeSl_flags, countF, countT, back]
 
 end Rooc.ComposeSimplex
